@@ -19,6 +19,15 @@ structure S where
   gnets : List Prefix := []
   grules : List Rule := []
   profs : List (Nat × PCfg) := []
+  /-- access settings as the backend sends them, per profile (`none`: no `access` message). -/
+  wire : List (Nat × Option AccessSettings) := []
+
+def S.wireOf (s : S) (k : Nat) : Option AccessSettings := ((s.wire.find? (fun e => e.1 == k)).map (·.2)).getD none
+
+def S.setWire (s : S) (k : Nat) (x : Option AccessSettings) : S :=
+  { s with wire := (k, x) :: s.wire.filter (fun e => e.1 != k) }
+
+def S.updWire (s : S) (k : Nat) (f : AccessSettings → AccessSettings) : S := s.setWire k ((s.wireOf k).map f)
 
 def S.global (s : S) : Global := { nets := s.gnets, eng := ruleEngine s.grules }
 
@@ -80,6 +89,11 @@ def parseDev (s : S) (d : String) : DevRes :=
     | ["empty", f] => .ok none (parseAttrs f)
     | _ => .none
 
+/-- Address family on the wire of the protocol: `1` IPv4, `0` IPv6, `z` IPv6 with a zone. -/
+def fam4 (s : String) : Bool := s == "1"
+def famZoned (s : String) : Bool := s == "z"
+def showFam (is4 zoned : Bool) : String := if zoned then "z" else showB is4
+
 def showEff : List Effect → String
   | [] => "-"
   | [.formerr] => "F"
@@ -95,7 +109,7 @@ def showKind : DevKind → String
 
 def showInfo : Option RI → String
   | none => ""
-  | some i => " | [" ++ i.host ++ "] " ++ toString i.qtype ++ " " ++ toString i.qclass ++ " " ++ showB i.remote.is4 ++ " " ++
+  | some i => " | [" ++ i.host ++ "] " ++ toString i.qtype ++ " " ++ toString i.qclass ++ " " ++ showFam i.remote.is4 i.zoned ++ " " ++
       toString i.remote.val ++ " " ++ (match i.asn with | none => "-" | some a => toString a) ++ " " ++ showB i.ecs ++ " " ++
       showKind i.dev
 
@@ -122,12 +136,12 @@ def step (s : S) : List String → S × String
     let p := s.prof (nat! k)
     (s.setProf (nat! k) { p with rules := p.rules ++ [parseRule kind allow imp perm restr anchor endA text] }, "ok")
   | ["req", is4, val, port, qname, qtype, qclass, asn, ecs, dev] =>
-    let o := wrap s.global { addr := { is4 := bool! is4, val := nat! val }, port := nat! port, qname := qname,
+    let o := wrap s.global { addr := { is4 := fam4 is4, val := nat! val }, zoned := famZoned is4, port := nat! port, qname := qname,
                              qtype := nat! qtype, qclass := nat! qclass, asn := parseASN asn, ecsOk := ecs == "1",
                              ecsBad := ecs == "2", dev := parseDev s dev }
     (s, o.why ++ " " ++ showEff o.effects ++ " " ++ showB o.err ++ showInfo o.info)
   | ["srv", proto, resp, opcode, nq, nans, nns, nw, is4, val, port, qname, qtype, qclass, asn, ecs, dev] =>
-    let r : Req := { addr := { is4 := bool! is4, val := nat! val }, port := nat! port, qname := qname,
+    let r : Req := { addr := { is4 := fam4 is4, val := nat! val }, zoned := famZoned is4, port := nat! port, qname := qname,
                      qtype := nat! qtype, qclass := nat! qclass, asn := parseASN asn, ecsOk := ecs == "1",
                      ecsBad := ecs == "2", dev := parseDev s dev }
     let m : MsgShape := { response := bool! resp, opcode := nat! opcode, nQ := nat! nq, nAns := nat! nans, nNs := nat! nns }
@@ -135,10 +149,24 @@ def step (s : S) : List String → S × String
   | ["pmatch", anchor, endA, text, host] =>
     (s, showB (({ anchor := if anchor == "d" then .domain else if anchor == "s" then .start else .none,
                   toks := parseToks text, endAnch := bool! endA } : Pat).matches (if host == "-" then [] else host.toList)))
-  | ["gip", is4, val] => (s, showB (s.global.isBlockedIP { is4 := bool! is4, val := nat! val }))
+  | ["gip", is4, val] => (s, showB (s.global.isBlockedIPZ { addr := { is4 := fam4 is4, val := nat! val }, zoned := famZoned is4 }))
   | ["ghost", host, qt] => (s, showB (s.global.isBlockedHost (if host == "-" then "" else host) (nat! qt)))
   | ["pblk", k, is4, val, asn, qname, qt] =>
-    (s, showB ((s.prof (nat! k)).acc.isBlocked qname (nat! qt) { is4 := bool! is4, val := nat! val } (parseASN asn)))
+    (s, showB ((s.prof (nat! k)).acc.isBlockedZ qname (nat! qt) { addr := { is4 := fam4 is4, val := nat! val }, zoned := famZoned is4 } (parseASN asn)))
+  | ["wnew", k, e] => (s.setWire (nat! k) (if e == "-" then none else some { enabled := e == "1" }), "ok")
+  | ["wcidr", k, which, nbytes, val, bits] =>
+    let c : Cidr := ⟨nat! nbytes, nat! val, nat! bits⟩
+    (s.updWire (nat! k) (fun x => if which == "a" then { x with allowCidr := x.allowCidr ++ [c] }
+                                  else { x with blockCidr := x.blockCidr ++ [c] }), "ok")
+  | ["wasn", k, which, asn] =>
+    (s.updWire (nat! k) (fun x => if which == "a" then { x with allowASN := x.allowASN ++ [nat! asn] }
+                                  else { x with blockASN := x.blockASN ++ [nat! asn] }), "ok")
+  | ["wrule", k, kind, allow, imp, perm, restr, anchor, endA, text] =>
+    (s.updWire (nat! k) (fun x => { x with rules := x.rules ++ [parseRule kind allow imp perm restr anchor endA text] }), "ok")
+  | ["wblk", k, stage, is4, val, asn, qname, qt] =>
+    let c := accessFromBackend (s.wireOf (nat! k))
+    let c := if stage == "c" then confOfCache (cacheOfConf c) else c
+    (s, showB (confBlocked c qname (nat! qt) { addr := { is4 := fam4 is4, val := nat! val }, zoned := famZoned is4 } (parseASN asn)))
   | ["norm", x] => (s, "[" ++ normDomain x ++ "] [" ++ normQueryDomain x ++ "]")
   | _ => (s, "bad-op")
 
